@@ -484,14 +484,6 @@ impl CodegenContext {
         Ok(symbol_nx)
     }
 
-    fn remove_symbol<I: Into<IdentifierPath>>(&mut self, id: I) {
-        let id = id.into();
-        let path = self.current_scope.join(&id);
-        if let Some(nx) = self.symbols.try_index(self.symbols.root, path) {
-            self.symbols.remove(nx);
-        }
-    }
-
     pub fn get_evaluator(&self) -> Evaluator {
         self.get_evaluator_for_scope(self.current_scope_nx)
     }
@@ -1018,13 +1010,14 @@ impl CodegenContext {
                 if let Some(loop_count) = self.evaluate_expression_as_i64(expr, true)? {
                     for index in 0..loop_count {
                         self.with_scope(loop_scope, Some(block), |s| {
+                            // (a variable, so that every iteration can give it its value without the symbol having to be
+                            // removed in between: a removed symbol's index is reused by the next symbol that is created,
+                            // which then inherits the usages that were recorded for 'index')
                             s.add_symbol(
                                 "index",
-                                s.symbol(expr.span, index, SymbolType::Constant),
+                                s.symbol(expr.span, index, SymbolType::Variable),
                             )?;
-                            let result = s.emit_tokens(&block.inner);
-                            s.remove_symbol("index");
-                            result
+                            s.emit_tokens(&block.inner)
                         })?;
                     }
                 }
